@@ -373,6 +373,39 @@ func longScript(rng *rand.Rand) *Script {
 	return s
 }
 
+// directedScripts: every ordered pair and triple out of a small pool of
+// statement kinds (queries on quoted and plain tables, lets, uses of them,
+// invalid statements, comments that hold a semicolon)
+// written on ONE line, so that the tool meets them in one flush of its buffer,
+// and the same with a line break inside the last statement.
+func directedScripts() []*Script {
+	pool := []string{"`storm events` | count", "Other | where n > lim", "let lim = 5", "let lim = lim + 1", "!", "let = 1", "U | count", "T | where s == 'x;y' // c;d\n| take lim", "`let` | take 1"}
+	var out []*Script
+	mk := func(idx []int, sep, lastSep string) {
+		s := &Script{}
+		for _, i := range idx {
+			s.Stmts = append(s.Stmts, pool[i])
+			s.Seps = append(s.Seps, sep)
+		}
+		last := len(s.Stmts) - 1
+		s.Seps[last] = lastSep
+		if isLet(s.Stmts[last]) {
+			s.Seps[last] = ";\n"
+		}
+		out = append(out, s)
+	}
+	n := len(pool)
+	for a := 0; a < n; a++ {
+		for b := 0; b < n; b++ {
+			mk([]int{a, b}, "; ", []string{";\n", "", "\n"}[(a+b)%3])
+			for c := 0; c < n; c++ {
+				mk([]int{a, b, c}, []string{"; ", ";", " ;\t"}[(a+b+c)%3], []string{";\n", "", ";"}[(a+2*b+c)%3])
+			}
+		}
+	}
+	return out
+}
+
 func genScript(rng *rand.Rand) *Script {
 	switch rng.Intn(8) {
 	case 0, 1:
@@ -521,6 +554,8 @@ func run(c *mon.Custom) {
 	for i := 0; i < nScripts; i++ {
 		scripts = append(scripts, genScript(rng))
 	}
+	nRandom := len(scripts)
+	scripts = append(scripts, directedScripts()...)
 	// model expectations, in child processes, batches of 50
 	expects := make([]*Expect, len(scripts))
 	var wg sync.WaitGroup
@@ -567,6 +602,14 @@ func run(c *mon.Custom) {
 	}
 	var jobs []job
 	for i := range scripts {
+		if i >= nRandom {
+			// the directed scripts: one delivery each in the quick tier, two otherwise
+			jobs = append(jobs, job{i, deliveries[i%len(deliveries)], rng.Int63()})
+			if !c.Quick() {
+				jobs = append(jobs, job{i, deliveries[(i/7+1)%len(deliveries)], rng.Int63()})
+			}
+			continue
+		}
 		if c.Quick() {
 			for _, d := range deliveries {
 				jobs = append(jobs, job{i, d, rng.Int63()})
